@@ -20,21 +20,23 @@ pub struct FileEntry {
     /// 0 ctehexml, 1 cte, 2 kyg, 3 tbl
     pub kind: u8,
     pub text: String,
+    /// project directory of a result file
+    pub dir: Option<PathBuf>,
 }
 
 pub fn files() -> Vec<FileEntry> {
     let mut out = vec![];
     for p in hproj::shipped_projects() {
-        out.push(FileEntry { name: p.name.clone(), kind: 0, text: p.src.text().to_string() });
+        out.push(FileEntry { name: p.name.clone(), kind: 0, text: p.src.text().to_string(), dir: None });
     }
     for p in hproj::legacy_cte_files() {
-        out.push(FileEntry { name: p.name.clone(), kind: 1, text: p.src.text().to_string() });
+        out.push(FileEntry { name: p.name.clone(), kind: 1, text: p.src.text().to_string(), dir: None });
     }
     for d in corpus::project_dirs() {
         for (f, kind) in [("KyGananciasSolares.txt", 2u8), ("NewBDL_O.tbl", 3u8)] {
             let p = d.join(f);
             if let Some(t) = hproj::read_latin1(&p) {
-                out.push(FileEntry { name: format!("{}/{}", d.file_name().unwrap().to_string_lossy(), f), kind, text: t });
+                out.push(FileEntry { name: format!("{}/{}", d.file_name().unwrap().to_string_lossy(), f), kind, text: t, dir: Some(d.clone()) });
             }
         }
     }
@@ -125,9 +127,10 @@ pub fn damage(text: &str, line: usize, edit: usize, variant: usize) -> Option<St
 }
 
 /// what the library does with a file text: ("ok" | "err" | "panic", detail)
-pub fn run_file(kind: u8, text: &str, scratch: &PathBuf) -> (&'static str, String) {
+pub fn run_file(kind: u8, text: &str, scratch: &PathBuf, dir: &Option<PathBuf>) -> (&'static str, String) {
     let t = text.to_string();
     let sc = scratch.clone();
+    let dir = dir.clone();
     let res = crate::guarded(std::panic::AssertUnwindSafe(move || -> Result<(), String> {
         match kind {
             0 => {
@@ -137,11 +140,38 @@ pub fn run_file(kind: u8, text: &str, scratch: &PathBuf) -> (&'static str, Strin
                 Ok(())
             }
             1 => hulc::bdl::Data::new(&t).map(|_| ()).map_err(|e| e.to_string()),
-            2 => hulc::kyg::parse(&t).map(|_| ()).map_err(|e| e.to_string()),
             _ => {
                 let bytes: Vec<u8> = t.chars().map(|c| if (c as u32) < 256 { c as u32 as u8 } else { b'?' }).collect();
-                std::fs::write(&sc, bytes).map_err(|e| e.to_string())?;
-                hulc::tbl::parse(&sc).map(|_| ()).map_err(|e| e.to_string())
+                // the parser alone ...
+                let alone = if kind == 2 {
+                    hulc::kyg::parse(&t).map(|_| ()).map_err(|e| e.to_string())
+                } else {
+                    std::fs::write(&sc, &bytes).map_err(|e| e.to_string())?;
+                    hulc::tbl::parse(&sc).map(|_| ()).map_err(|e| e.to_string())
+                };
+                // ... and the export with --use-extra on the project directory holding the damaged file
+                if let Some(d) = &dir {
+                    let sd = PathBuf::from(format!("{}.d", sc.to_string_lossy()));
+                    let _ = std::fs::remove_dir_all(&sd);
+                    std::fs::create_dir_all(&sd).map_err(|e| e.to_string())?;
+                    if let Ok(rd) = std::fs::read_dir(d) {
+                        for e in rd.filter_map(|e| e.ok()) {
+                            let p = e.path();
+                            let n = p.file_name().unwrap().to_string_lossy().to_string();
+                            let is_target = (kind == 2 && n == "KyGananciasSolares.txt") || (kind == 3 && n == "NewBDL_O.tbl");
+                            if is_target {
+                                let _ = std::fs::write(sd.join(&n), &bytes);
+                            } else if p.is_file() && (n.ends_with(".ctehexml") || n == "KyGananciasSolares.txt" || n == "NewBDL_O.tbl") {
+                                let _ = std::fs::copy(&p, sd.join(&n));
+                            }
+                        }
+                    }
+                    let r = hulc2model::collect_hulc_data(sd.to_string_lossy().to_string(), true, true).map(|_| ()).map_err(|e| e.to_string());
+                    let _ = std::fs::remove_dir_all(&sd);
+                    // rejected by either is a rejection; both fine is a conversion
+                    return alone.and(r);
+                }
+                alone
             }
         }
     }));
@@ -167,7 +197,7 @@ pub fn worker() {
             match damage(&fs[v[0]].text, v[1], v[2], v[3]) {
                 None => json!({"o": "na"}),
                 Some(t) => {
-                    let (o, d) = run_file(fs[v[0]].kind, &t, &scratch);
+                    let (o, d) = run_file(fs[v[0]].kind, &t, &scratch, &fs[v[0]].dir);
                     json!({"o": o, "d": d})
                 }
             }
@@ -264,7 +294,39 @@ pub fn run(a: &Args) -> Batch {
             }
         }
     } else {
-        // a seeded slice: lines weighted by file, every edit kind equally often
+        // a seeded slice. First stratified by what the line defines (attribute keyword / XML tag / block
+        // type), per kind of file: every keyword gets every edit kind and every out-of-range value on some
+        // of its lines, so that rare lines (MONTH lists, vertices, systems data) are not left to chance
+        let mut by_key: std::collections::BTreeMap<(u8, String), Vec<(usize, usize)>> = Default::default();
+        for (fi, f) in fs.iter().enumerate() {
+            for (li, l) in f.text.split_inclusive('\n').enumerate() {
+                let t = l.trim();
+                let key = if let Some(p) = t.find('=') {
+                    let k = t[..p].trim();
+                    if k.starts_with('"') { format!("block {}", t[p + 1..].trim()) } else { k.chars().take(40).collect() }
+                } else if t.starts_with('<') {
+                    t[1..].split(|c| c == '>' || c == ' ').next().unwrap_or("").to_string()
+                } else {
+                    continue;
+                };
+                by_key.entry((f.kind, key)).or_default().push((fi, li));
+            }
+        }
+        let per_key = (a.n / 2 / (by_key.len().max(1) * (EDITS.len() + OUT_OF_RANGE.len()))).max(1);
+        for (_, lines) in by_key.iter() {
+            for _ in 0..per_key {
+                for e in 0..EDITS.len() {
+                    let variants = if e == 5 { OUT_OF_RANGE.len() } else { 1 };
+                    for v in 0..variants {
+                        let (fi, l) = *r.pick(lines);
+                        if damage(&fs[fi].text, l, e, v).is_some() {
+                            jobs.push((fi, l, e, v));
+                        }
+                    }
+                }
+            }
+        }
+        // then lines weighted by file, every edit kind equally often
         let mut guard = 0;
         while jobs.len() < a.n && guard < a.n * 40 {
             guard += 1;
@@ -345,7 +407,7 @@ pub fn run(a: &Args) -> Batch {
         agree: "agree_C18".into(),
         cases,
         impl_findings,
-        rule: "files = the shipped .ctehexml projects (parse_with_catalog + Model::try_from + as_json), legacy .cte files (bdl::Data::new), KyGananciasSolares.txt (kyg::parse) and NewBDL_O.tbl (tbl::parse); edits on one line = delete, duplicate, remove the block it opens, rename the first quoted reference, first number -> text, first number -> one of 10 out-of-range values (0, -1, 13, 99999, +-1e39, 1e-46, nan, inf, 2^32), truncate the file in the middle of the line; thorough tier = every line x every edit, quick tier = a seeded slice; every damaged file runs in a worker process with a 30 s watchdog; one finding per distinct crash site. Coq cases = damaged BDL texts of the smaller files: the model's block parser and hulc::bdl::build_blocks must agree on accepted / rejected and on all blocks; non-trivial = the edit fell inside the BDL text".into(),
+        rule: "files = the shipped .ctehexml projects (parse_with_catalog + Model::try_from + as_json), legacy .cte files (bdl::Data::new), KyGananciasSolares.txt (kyg::parse) and NewBDL_O.tbl (tbl::parse), each also through hulc2model::collect_hulc_data(dir, true, true) on a copy of its project directory; edits on one line = delete, duplicate, remove the block it opens, rename the first quoted reference, first number -> text, first number -> one of 10 out-of-range values (0, -1, 13, 99999, +-1e39, 1e-46, nan, inf, 2^32), truncate the file in the middle of the line; thorough tier = every line x every edit, quick tier = a seeded slice, half of it stratified by attribute keyword / XML tag so that every kind of line meets every edit and every out-of-range value; every damaged file runs in a worker process with a 30 s watchdog; one finding per distinct crash site. Coq cases = damaged BDL texts of the smaller files: the model's block parser and hulc::bdl::build_blocks must agree on accepted / rejected and on all blocks; non-trivial = the edit fell inside the BDL text".into(),
         stats: json!({"files": fs.len(), "lines": total_lines, "damaged_files_run": jobs.len(), "outcomes": counts, "files_by_kind": {"ctehexml": per_kind[0], "cte": per_kind[1], "kyg": per_kind[2], "tbl": per_kind[3]},
             "by_edit": EDITS.iter().enumerate().map(|(i, e)| json!({"edit": e, "converted": per_edit[i][0], "rejected": per_edit[i][1], "crashed": per_edit[i][2], "hang_or_died": per_edit[i][3]})).collect::<Vec<_>>(),
             "distinct_crash_sites": by_site.len()}),
